@@ -48,6 +48,30 @@ class RuleResult:
     def fail(self, finding):
         self.findings.append(finding)
 
+    def check_opaque(self, repo):
+        """A finding states that a construct is missing or wrong in a function.  If that function still contains
+        reflection the analysis could not write out (a computed attribute name, __dict__ access) after
+        desugaring, the construct may be there unseen: the rule is blind on it, it has no finding."""
+        import ast
+        for f in self.findings:
+            try:
+                fi = repo.func(f.function)
+            except Exception:      # noqa: BLE001  (class-level or synthetic function names)
+                continue
+            for n in ast.walk(fi.node):
+                why = None
+                if isinstance(n, ast.Call) and isinstance(n.func, ast.Name) and \
+                        n.func.id in ('setattr', 'getattr', 'delattr') and len(n.args) >= 2 and \
+                        not isinstance(n.args[1], ast.Constant):
+                    why = '%s with a computed name' % n.func.id
+                elif isinstance(n, ast.Attribute) and n.attr in ('__dict__', '__setattr__', '__getattribute__'):
+                    why = 'access to %s' % n.attr
+                elif isinstance(n, ast.Call) and isinstance(n.func, ast.Name) and n.func.id in ('vars', 'locals', 'globals'):
+                    why = '%s()' % n.func.id
+                if why:
+                    raise AnalysisError('%s: %s contains %s that is not written out; `%s` cannot be decided there'
+                                        % (self.rule, f.function, why, f.construct[:60]))
+
     def check_floor(self):
         if len(self.instances) < self.floor:
             raise AnalysisError('%s matched %d instances, fewer than the %d confirmed by hand '
